@@ -793,6 +793,25 @@ def case_grid(ctx, inp):
         if len(r.chunks[0]) * len(r.chunks[1]) <= 48:
             _grid_eq(ctx, op, m, r)
         ctx.branch("grid:" + op)
+    elif op == "squeeze_row":
+        cc = inp["cs"]
+        x, d = _mk([[1], cc])
+        r, e = da.squeeze(d, axis=0), np.squeeze(x, axis=0)
+        m = ctx.lean(Sym("squeeze_row"), cc, x[0].tolist())
+        if not _same(ctx, "squeeze", r, e, blocks=False):
+            return
+        real = [np.asarray(r.blocks[i].compute(scheduler="sync")).tolist() for i in range(len(r.chunks[0]))]
+        ctx.eq("squeeze: chunks and blocks vs the Lean plan", [m[0], m[1]], [list(map(int, r.chunks[0])), real])
+        ctx.branch("grid:squeeze_row")
+    elif op == "expand_row":
+        cs = inp["cs"]
+        x, d = _mk([cs])
+        r, e = da.expand_dims(d, 0), np.expand_dims(x, 0)
+        m = ctx.lean(Sym("expand_row"), cs, x.tolist())
+        if not _same(ctx, "expand_dims", r, e, blocks=False):
+            return
+        _grid_eq(ctx, "expand_dims", m, r)
+        ctx.branch("grid:expand_row")
     elif op == "pad_const":
         cs, l, rr, v = inp["cs"], inp["l"], inp["r"], inp["v"]
         x, d = _mk([cs])
@@ -1101,7 +1120,7 @@ def _near_identity(rng, old, kind):
 def _gen_grid(rng):
     op = rng.choice(["transpose", "T", "swapaxes", "moveaxis", "flip0", "flip1", "rot90", "rot90", "tril", "tril", "triu", "triu",
                      "stack", "bcast_rows", "bcast_len1", "flip1d", "tile1d", "diff1d", "hcat", "vcat", "block2x2", "tile2d",
-                     "pad_const", "pad_const"])
+                     "pad_const", "pad_const", "squeeze_row", "expand_row"])
     z = rng.random() < 0.15
     comp = (lambda n: rand_comp_zeros(rng, n)) if z else (lambda n: rand_comp(rng, n))
     if op in ("stack",):
@@ -1116,6 +1135,8 @@ def _gen_grid(rng):
         return {"op": op, "rc": rand_comp(rng, rng.randint(1, 4)), "c1": rand_comp(rng, rng.randint(1, 4)),
                 "c2": rand_comp(rng, rng.randint(1, 4)), "r2": rand_comp(rng, rng.randint(1, 3)),
                 "r0": rng.randint(1, 3), "r1": rng.randint(1, 3)}
+    if op in ("squeeze_row", "expand_row"):
+        return {"op": op, "cs": rand_comp(rng, rng.randint(1, 8))}
     if op == "pad_const":
         return {"op": op, "cs": comp(rng.randint(1, 7)), "l": rng.randint(0, 9), "r": rng.randint(0, 9), "v": rng.randint(-3, 3)}
     inp = {"op": op, "rc": comp(rng.randint(1, 6)), "cc": comp(rng.randint(1, 6))}
